@@ -53,7 +53,7 @@ class Result:
             return
         self.viol[fp] = {"detail": detail, "case": case, "cmd": cmd, "n": 1}
 
-    def merge_lines(self, lines, cmd=None):
+    def merge_lines(self, lines, cmd=None, viol_filter=None):
         """Parse harness protocol lines.
         EV name n          counter += n
         MAX name n         counter = max
@@ -81,7 +81,13 @@ class Result:
                 body = ln[5:]
                 fp, _, detail = body.partition(" | ")
                 m = re.search(r"case=(\d+)", detail)
-                self.add_viol(fp.strip(), detail.replace("\\n", "\n"), case=int(m.group(1)) if m else None, cmd=cmd)
+                case = int(m.group(1)) if m else None
+                if viol_filter is not None:
+                    why = viol_filter(fp.strip(), case)   # None = keep, else the reason the observation cannot be held against the code
+                    if why:
+                        self.discarded[why] = self.discarded.get(why, 0) + 1
+                        continue
+                self.add_viol(fp.strip(), detail.replace("\\n", "\n"), case=case, cmd=cmd)
             elif ln.startswith("NOTE "):
                 if len(self.notes) < 20:
                     self.notes.append(ln[5:])
@@ -166,7 +172,7 @@ def run_shard(exe, args, start, count, env=None, timeout=600, progress=True):
 
 
 def run_sharded(res, exe, args, total, env=None, nshards=None, timeout=900, crash_is_violation=True,
-                crash_fp_prefix="crash"):
+                crash_fp_prefix="crash", viol_filter=None):
     """Run `total` cases over up to NCPU processes. Crashes become violations with fingerprint
     crash:<signal>:<sanitizer summary or 'nosummary'>."""
     nshards = nshards or min(NCPU, max(1, total))
@@ -189,7 +195,7 @@ def run_sharded(res, exe, args, total, env=None, nshards=None, timeout=900, cras
         shutil.rmtree(run_tmp, ignore_errors=True)
     if True:
         for lines, crashes in results:
-            res.merge_lines(lines, cmd=" ".join([exe] + [str(a) for a in args]))
+            res.merge_lines(lines, cmd=" ".join([exe] + [str(a) for a in args]), viol_filter=viol_filter)
             for case, sig, err, cmd in crashes:
                 if sig == "timeout":
                     res.discarded["watchdog"] = res.discarded.get("watchdog", 0) + 1
